@@ -656,6 +656,11 @@ void DocumentBuilder::prechart_set(const bool pch) { currentTemplate->has_precha
 
 void DocumentBuilder::decl_dynamic_template(const std::string& name)
 {
+    if (currentTemplate != nullptr && frames.top() == currentTemplate->frame) {
+        // among the local declarations of a template: the callbacks for its locations and edges still need currentTemplate
+        params = frame_t::create();
+        throw TypeException{"$Dynamic_templates_can_only_be_declared_globally"};
+    }
     // Should be null, but error recovery can result in proc_end not being called
     currentTemplate = nullptr;
     /* check if name already exists */
